@@ -184,6 +184,10 @@ CONSTRUCTS = {
     "and_bare": ("hA && hB", "hA and hB"),
     "or_bare": ("hA || hB", "hA or hB"),
     "pfpath": ("pf'/tmp/{x}'", "__xonsh__.path_literal(f'/tmp/{x}')"),
+    # round 5: non-ASCII names inside the sugar (the tokenizer's own patterns for them: \w in SearchPath / env names)
+    "funsearch": ("@fün`*.py`", "__xonsh__.pathsearch('@fün`*.py`')"),
+    "envuni": ("$HÖME", "__xonsh__.env['HÖME']"),
+    "helpuni": ("föo?", "__xonsh__.help(föo)"),
     "nested": ("$(echo $(pwd) $HOME)", "__xonsh__.subproc_captured('echo', __xonsh__.subproc_captured('pwd'), __xonsh__.env['HOME'])"),
 }
 _TARGET_FIELDS = {
@@ -343,15 +347,15 @@ def split_words(body):
         while j < n and (stack or body[j] not in WS):
             c = body[j]
             if c in "'\"":
-                q = c
-                k = j + 1
-                while k < n and body[k] != q:
-                    if body[k] == "\\" or body[k] == "\n":
+                q = body[j:j + 3] if body[j:j + 3] in ("'''", '"""') else c     # a triple-quoted string may span lines (round 5)
+                k = j + len(q)
+                while k < n and body[k:k + len(q)] != q:
+                    if body[k] == "\\" or (body[k] == "\n" and len(q) == 1):
                         return None
                     k += 1
                 if k >= n:
                     return None
-                j = k + 1
+                j = k + len(q)
                 continue
             if c in _OPENERS:
                 lead = body[max(i, j - 2):j]
@@ -365,7 +369,9 @@ def split_words(body):
                     return None
                 stack.pop()
             elif c in "#`\\!?" :
-                if not (c == "!" and j + 1 < n and body[j + 1] in "(["):
+                empty_macro = c == "!" and stack and j + 1 < n and body[j + 1] == stack[-1] and j > 0 and (body[j - 1].isalnum() or body[j - 1] == "_")
+                # `$(cmd!)` nested in a word: a subprocess macro with an empty argument is one piece of the outer word (round 5)
+                if not (c == "!" and j + 1 < n and body[j + 1] in "([") and not empty_macro:
                     return None
             elif c == "$" and not (j + 1 < n and (body[j + 1].isidentifier() or body[j + 1] in "([")):
                 return None   # a dangling '$' is not part of the alphabet
